@@ -99,14 +99,18 @@ PROPS["C04"] = {
         {"dir": "privval",
          "quick": ["VP_C04_Signer_k2", "VP_C04_Signer_k2_symts", "VP_C04_Signer_k2_crash1", "VP_C04_Signer_k2_ioerr"],
          "thorough": ["VP_C04_Signer_k3_h2", "VP_C04_Signer_k2_crash1_symts", "VP_C04_Signer_k3_crash1", "VP_C04_Signer_k3_crash2", "VP_C04_Signer_k3_ioerr"]},
+        {"dir": "consensus",
+         "quick": ["VP_C02_Step_R1_timeout_lockfocus"],
+         "thorough": ["VP_C02_Step_R1_timeout"]},
     ],
     "bounds": {
         "signer (H1)": "real FilePV on the modelled file system; k = 2 (thorough 3) arbitrary requests: prevote / precommit / proposal, height 1 (thorough 1..2), round 0..1, block A/B/nil, two timestamps (or a symbolic timestamp travelling through the real sign-bytes codec), optional restart (LoadFilePV) after every request",
+        "WAL before signing (H2)": "the consensus step harness (see C02) hands every input to a recording WAL unsynced, as the receive routine does; inside the signer, at every SignVote / SignProposal the WAL must have been flushed and synced (entries: timeouts; the proposer re-proposing its valid block is among them)",
         "write errors": "one write of the sign-state file fails with an error at any point (nothing reaches the file); the signer must not release a signature it could not record (it may die: the harness then restarts it from disk)",
         "crashes": "one (thorough two) simulated crash at any file operation of the sign-state save (create, write with a torn prefix, rename, remove), surviving prefix of an unsynced tail chosen at reboot, then LoadFilePV on what survived",
     },
     "stubs": ["file system model (symgo/vfs.go): O_SYNC writes durable, rename/remove atomic and durable", "tmjson = identity on Go values with an opaque token (a torn token does not decode)", "ed25519 ideal when sign bytes are symbolic, real otherwise"],
-    "outside": ["remote signers (privval/signer_*)", "directory-entry reordering across rename", "the consensus-side WAL ordering (H2: checked with the consensus step harness when present)"],
+    "outside": ["remote signers (privval/signer_*)", "directory-entry reordering across rename", "crash between signing and the WAL write of the own message followed by replay (covered only through the signer refusing conflicting requests)"],
     "timeout_quick": 420, "timeout_thorough": 3000,
 }
 
@@ -115,7 +119,7 @@ PROPS["C15"] = {
     "groups": [
         {"dir": "consensus",
          "quick": ["VP_C15_Codec_k2", "VP_C15_Codec_k1_flip", "VP_C15_Arbitrary_L0", "VP_C15_Arbitrary_L3", "VP_C15_Arbitrary_L8", "VP_C15_Arbitrary_L10",
-                   "VP_C15_WAL_k3", "VP_C15_WAL_k3_crash1", "VP_C15_Repair_1", "VP_C15_Repair_2"],
+                   "VP_C15_WAL_k3", "VP_C15_WAL_k3_crash1", "VP_C15_Repair_1", "VP_C15_Repair_2", "VP_C15_CatchupAtInitialHeight"],
          "thorough": ["VP_C15_Codec_k3", "VP_C15_Codec_k2_flip", "VP_C15_Arbitrary_L12", "VP_C15_WAL_k4", "VP_C15_WAL_k4_crash1"]},
         {"dir": "libs/autofile",
          "quick": ["VP_C15_Limits_k4"],
@@ -124,6 +128,7 @@ PROPS["C15"] = {
     "bounds": {
         "codec": "k = 2 (thorough 3) messages (EndHeight / timeoutInfo from a fixed alphabet) framed by the real encoder, stream cut at a symbolic byte offset; one symbolic byte overwritten at a symbolic offset (k = 1, thorough 2); arbitrary buffers of L = 0,3,8,10 (thorough 12) fully symbolic bytes with the length field < 16",
         "repair over lifetimes": "1 and 2 process lifetimes that each append two synced records and die leaving 1, 5 or 9 bytes of a torn record at the end of the WAL; every restart runs the real State.OnStart (catch-up, backup, repairWalFile, reload); afterwards a reader returns every synced record of every lifetime in order",
+        "catch-up at the first height": "a chain with initial height 1, 2 or 10 that crashed in its first height with one logged timeout: the real catchupReplay replays it",
         "size limits": "real autofile.Group on the modelled file system with head-size limit 200..600 and total-size limit 300..900 bytes; k = 4 (thorough 5) operations from {synced write of a 100/300/700-byte record, checkHeadSizeLimit, checkTotalSizeLimit}; a later reader must get a suffix that starts at a file boundary and contains everything written since the last rotation",
         "wal": "real BaseWAL + autofile.Group on the modelled file system; histories of k = 3 (thorough 4) operations from {Write, WriteSync, end-of-height (synced), RotateFile, Stop+Start, FlushAndSync}; one simulated crash at any file operation (torn write prefixes, surviving prefix of the unsynced tail chosen at reboot), then reopen with the repair sequence of State.OnStart (backup, repairWalFile, reopen); audit with a fresh group reader and SearchForEndHeight for every height",
     },
@@ -162,7 +167,7 @@ PROPS["C11"] = {
     "files": ["evidence/pool.go", "evidence/verify.go", "types/evidence.go"],
     "groups": [
         {"dir": "evidence",
-         "quick": ["VP_C11_DuplicateVote", "VP_C11_Lifecycle_k3", "VP_C11_Lifecycle_k2_lca"],
+         "quick": ["VP_C11_DuplicateVote", "VP_C11_ExpiryNeedsBothLimits", "VP_C11_Lifecycle_k3", "VP_C11_Lifecycle_k2_lca"],
          "thorough": ["VP_C11_Lifecycle_k4", "VP_C11_Lifecycle_k3_lca"]},
     ],
     "bounds": {
@@ -396,6 +401,7 @@ PROPS["C03"] = {
     "bounds": {
         "T1 timeouts grow": "config.ConsensusConfig.Propose/Prevote/Precommit for every round in [0, 65536), default configuration and configurations with arbitrary deltas in [1 ms, 10 s]",
         "T2 rotation": "3 validators with powers in 1..3 each, starting 0..3 rounds into the rotation: over (total power) rounds each proposes exactly (power) times",
+        "T6 precommit-wait flag": "invariant of the step harness: TriggeredTimeoutPrecommit is set only for the round whose precommit-wait timeout was scheduled (otherwise the node would wait in that round's precommit step for ever)",
         "T3/T4 round skipping, re-proposal, unlock": "the step harness of C02 (lock-focus slice, R=2, node in round 2): T4a asserted at every SignProposal, T4b (a later polka for something else releases the lock) after every vote",
         "T5 commit waits for the block": "real consensus.State with real vote sets, 4 validators: decision seen without the block, then one of {nothing, round-1 prevotes for the block, round-1 prevotes for nil, round-1 precommits for nil, a signed proposal for another block in the node's round}, then all parts (round 0 and 1), all votes again and all scheduled timeouts, twice",
     },
